@@ -495,9 +495,9 @@ func translateGen(r *rand.Rand, idx int, thorough bool) interface{} {
 
 func init() {
 	engines["route"] = &Engine{
-		Header:   "From KV Require Import Base.Util Model.Inject Model.Translate Proofs.TranslateEquiv.",
+		Header:   "From KV Require Import Base.Util Model.Inject Model.Translate Proofs.TranslateEquiv Proofs.TranslateRules.",
 		CaseType: "tr_case", Agree: "translate_agree", PropOk: "c02_case",
-		Stat: map[string]string{"entries": "st_entries", "theorem_applies": "st_thm_applies", "theorem_applies_active": "st_thm_applies_active"},
+		Stat: map[string]string{"entries": "st_entries", "theorem_applies": "st_thm_applies", "theorem_applies_active": "st_thm_applies_active", "rules_theorem_applies": "st_thm_rules_applies"},
 		Gen: translateGen, New: func() interface{} { return &trCase{} }, Run: translateRun,
 	}
 }
